@@ -70,7 +70,7 @@ def main():
             res["confirmed"]["suite_output"] = o[-1500:]
         for c in checks:
             t0 = time.time()
-            rc, o = sh("python3 tools/check.py %s --tier quick" % c, cwd=V, env=dict(ENV, VERIF_REPO=wt), timeout=3000)
+            rc, o = sh("python3 tools/check.py %s --tier quick" % c, cwd=V, env=dict(ENV, VERIF_REPO=wt, VERIF_WORKTAG="-" + name), timeout=3000)
             lines = [l for l in o.splitlines() if l.startswith("VIOLATION") or l.startswith("KNOWN-FINDING")]
             res["checks"][c] = {"rc": rc, "lines": lines, "wall_s": round(time.time() - t0, 1),
                                 "cmd": "VERIF_REPO=%s python3 tools/check.py %s --tier quick" % (wt, c)}
